@@ -321,6 +321,6 @@ TASK.edge_space = edge_space
 # claimed; note permutations are not claimed here: the velocity regression depends on WHICH maximum matching is
 # returned (see finding F27)
 TASK.edges = {
-    "shift": {"apply": TT._shift_edges, "funcs": None, "keys": None},
+    "shift": {"apply": TT._shift_edges, "funcs": None, "keys": None, "cfgs": "all"},
     "pitchscale": {"apply": TT._scale_edges, "funcs": None, "keys": None},
 }
